@@ -88,6 +88,16 @@ func (m *Module) Lower() *Bin {
 			Offset: []Instr{{Op: OpI32Const, I: int64(int32(d.Offset))}},
 			Bytes:  append([]byte{}, d.Bytes...)})
 	}
+	// the data count section is required (and written by WABT) as soon as
+	// memory.init / data.drop occur
+	for i := range m.Funcs {
+		Walk(m.Funcs[i].Body, func(in *Instr) {
+			if (in.Op == OpMemoryInit || in.Op == OpDataDrop) && b.DataCount == nil {
+				n := uint32(len(m.Data))
+				b.DataCount = &n
+			}
+		})
+	}
 	b.Names = m.ExpectedNames()
 	return b
 }
